@@ -3,6 +3,7 @@ import re
 
 from cv import flow, rules, graph
 from cv.rules import events_of, order_after_success
+from props import common
 
 TITLE = "Archive files are write-once: backup never alters or removes existing files"
 TECHNIQUE = 'static analysis: constant-argument rule (CreateNew), sibling agreement of the three Protocol::write implementations (primitive flows into the creating call), provenance, who-may-remove'
@@ -158,6 +159,8 @@ def run(ck, w):
         else:
             ck.ok(o, sites=[pw[0].site()])
 
+    common.protocol_dispatch_by_name(ck, w, "C07.1d")
+
     # ---- 2. sibling agreement of the three Protocol::write implementations -----------------------------
     present = {k: v for k, v in IMPLS.items() if v in lib.bodies}
     n_impls = {"nodefault": 1, "s3": 2, "sftp": 2}.get(w.config, 3)
@@ -259,6 +262,11 @@ def run(ck, w):
                     if e2.bb in b.live and e2 is not e and any(flow.operand_local(a) in tracked for a in e2.args):
                         problems.append(("the length of the file in the way is passed to %s" % e2.name.split("::")[-1], e2.site(),
                                          "existing file length compared with something other than zero"))
+            grow = [(b, e) for b in fam for e in b.events if e.bb in b.live and re.search(
+                r"^(tokio|std)::fs::File::(set_len|set_max_buf_size)$|fallocate|posix_fallocate|::seek$|SeekFrom", e.name)]
+            if grow:
+                problems.append(("the file is sized or positioned by %s before / instead of writing content: a kill leaves a non-empty file that is not the content" %
+                                 grow[0][1].name.split("::")[-1], grow[0][1].site(), "file sized without content"))
             if bare and not lens:
                 problems.append(("a non-exclusive, non-truncating open exists without a zero-length test of the file in the way", bare[0][1].site(),
                                  "leftover completion without a zero-length test"))
